@@ -297,3 +297,21 @@ Lemma join_comm_refuted_witness :
   is_subtype jc_ct 20 (TInst 3%positive []) (TInst 4%positive []) = Some false /\
   is_subtype jc_ct 20 (TInst 4%positive []) (TInst 3%positive []) = Some false.
 Proof. vm_compute. repeat split; reflexivity. Qed.
+
+(* ---------------------------------------------------------------- meet is not always a lower bound *)
+Definition gcls (mro bases : list cid) (vs : list variance) (pr : list cid) : cls :=
+  {| c_mro := mro; c_var := vs; c_bases := bases; c_amap := []; c_promote := pr; c_enum := None; c_protocol := false |}.
+(* 1 object, 2 int (promoted to float), 3 float, 4 Contra[T_contra] *)
+Definition ml_ct : ctable :=
+  {| classes := [(1%positive, gcls [1%positive] [] [] []);
+                 (2%positive, gcls [2%positive; 1%positive] [1%positive] [] [3%positive]);
+                 (3%positive, gcls [3%positive; 1%positive] [1%positive] [] []);
+                 (4%positive, gcls [4%positive; 1%positive] [1%positive] [Contra] [])];
+     k_object := 1%positive; k_tuple := 8%positive; k_bool := 9%positive; k_sized := 10%positive; k_tuplelike := [] |}.
+Definition ml_s : ty := TInst 4%positive [TInst 3%positive []].      (* Contra[float] *)
+Definition ml_t : ty := TInst 4%positive [TInst 2%positive []].      (* Contra[int] *)
+Lemma meet_lower_refuted_witness :
+  wf_ct ml_ct = true /\ any_free ml_s = true /\ any_free ml_t = true /\
+  meet_types ml_ct 20 ml_s ml_t = Some ml_t /\ meet_types ml_ct 20 ml_t ml_s = Some ml_t /\
+  is_subtype ml_ct 20 ml_t ml_s = Some false /\ is_subtype ml_ct 20 ml_s ml_t = Some true.
+Proof. vm_compute. repeat split; reflexivity. Qed.
